@@ -53,6 +53,9 @@ CHECKS = {
  "C18": ("exploration", "bounded exhaustive enumeration of a path-component grammar against the real FS client half inside a private mount namespace, with full filesystem snapshots; server half against every object kind",
          "E-ENUM", "Every path built from 10 base spellings x ~80 leaf shapes (recognised, near-miss, traversal, control/non-ASCII bytes, over-long, remote and address-qualified forms over ip x port spellings; thorough adds every single-character mutation of two accepted paths) x peer address v4/v6 x local/remote x 4 scripted-server behaviours is sent to the real client; recursive snapshots before / while the server holds the answer / after show at most one new 0700 directory, only for paths an independent validator accepts, reply 0 iff created, and the initial state restored. The real server half is run against nothing / dir 0700 / dir 0755 / foreign-owned dir / dir with a sub-directory / file / symlinks / fifo.",
          "Needs root and `unshare -m` (falls back to the host /tmp and says so in the evidence); in-package seam (overlay, tag verif) reaches the remote variant.", "DESIGN.md §3 C18"),
+ "C19": ("fault_enumeration", "exhaustive enumeration of stall points (every connection operation of the endpoint) x cancellation timing on real stream operations and handshakes over an in-memory conn that blocks the k-th operation until Close",
+         "E-FAULT", "For plain, encrypted and typed exchanges and for the client and server side of five handshake shapes, a dry run counts the endpoint's reads and writes; for every k the k-th operation never completes and, exactly when the stall is entered, the context is cancelled or a harness-controlled deadline passes (thorough: also a real 50 ms timeout); plus already-cancelled, cancelled-after-completion and never-cancellable contexts. The call must return with an error (the context's own error for plain stream operations), the connection must have been closed, and uncancelled runs must equal the baseline.",
+         "Free-running rather than scheduler-controlled (context.AfterFunc runs on runtime goroutines); the only wall-clock judgement is a 10 s hang watchdog; SSL/FS/KERBEROS shapes excluded.", "DESIGN.md §3 C19"),
 }
 PENDING = "check not built yet in this session (planned, DESIGN.md section 3); listed here until its check is registered"
 def main():
